@@ -43,6 +43,8 @@ func init() {
 			"Go int treated as unbounded (no text or pattern near 2^31 bytes; trieFrame.depth int32 does not wrap)",
 			"fewer than 2^32 trie nodes (uint32 head/tail/cap of trieNodeQueue do not wrap)",
 			"every checked query is made after a BuildFailureLinks that covers all inserted patterns (queries between an Insert and the next build meet nil failure links and are outside the property: they are run and compared with the model, not judged)",
+			"a Trie is used through one value: a by-value copy of a Trie that already holds patterns is outside the property (the root node is embedded and the depth-1 failure links point at the ORIGINAL root, so a query on such a copy dereferences nil in the unchanged code as well); copies of the zero value are independent and are exercised (`sibling` op)",
+			"results ledger: every returned string is kept alive with a deep copy and re-compared after every later call on the same and on a second trie; arguments are passed as windows of canary-framed arenas",
 		},
 		TrustedBase: []string{
 			"property oracle: naive byte scanning with bytes.Equal / bytes.HasPrefix / bytes.Contains and unicode/utf8.DecodeRune (Go standard library)",
@@ -59,7 +61,7 @@ const (
 // RunTrie builds the trie of a header (tokens after `@ Cxx`): Insert in order
 // (empty patterns included, Insert ignores them), then BuildFailureLinks.
 func RunTrie(t *algz.Trie, hdr []string) string {
-	if len(hdr) < 1 || hdr[0] != "trie" {
+	if len(hdr) < 1 || (hdr[0] != "trie" && hdr[0] != "raw") {
 		return "bad-op"
 	}
 	var pats [][]byte
@@ -73,7 +75,9 @@ func RunTrie(t *algz.Trie, hdr []string) string {
 	for _, p := range pats {
 		t.Insert(string(p))
 	}
-	t.BuildFailureLinks()
+	if hdr[0] == "trie" {
+		t.BuildFailureLinks()
+	}
 	return "ok"
 }
 
@@ -108,31 +112,47 @@ func stepOp(t *algz.Trie, tk []string) string {
 	return "bad-op"
 }
 
-func impl(c core.Case) []string {
-	var t algz.Trie
-	cyc := ""
-	return core.RunOps(c,
-		func(hdr []string) string {
-			o := RunTrie(&t, hdr)
-			if o == "ok" {
-				cyc = FailCycle(&t)
-			}
-			return o
-		},
-		func(tk []string) string {
-			if o, ok := StepMut(&t, tk); ok {
-				if len(tk) == 1 && o == "ok" {
-					cyc = FailCycle(&t) // after every build
-				}
-				return o
-			}
-			if cyc != "" && !(len(tk) == 1 && tk[0] == "dump") {
-				// a query reaching that node would never return (and exhaust the memory)
-				return CycleWord + cyc
-			}
-			return stepOp(&t, tk)
-		})
+// query answers one C05 query on the session's trie, entering every returned string
+// into the results ledger.
+func query(s *Session, tk []string) string {
+	if len(tk) == 3 && tk[0] == "sibling" {
+		pat, ok1 := s.Arg(tk[1])
+		text, ok2 := s.Arg(tk[2])
+		if !ok1 || !ok2 {
+			return "bad-op"
+		}
+		r := s.Sibling(pat).FindAll(text)
+		s.Keep(r...)
+		return ShowList(r)
+	}
+	if len(tk) != 2 {
+		return "bad-op"
+	}
+	arg, ok := s.Arg(tk[1])
+	if !ok {
+		return "bad-op"
+	}
+	list := func(r []string) string {
+		s.Keep(r...)
+		if len(r) > 0 {
+			s.Last = r[len(r)-1]
+		}
+		return ShowList(r)
+	}
+	switch tk[0] {
+	case "match":
+		return strconv.FormatBool(s.T.Match(arg))
+	case "findall":
+		return list(s.T.FindAll(arg))
+	case "prefix":
+		return list(s.T.PrefixSearch(arg))
+	case "fuzzy":
+		return list(s.T.FuzzySearch(arg))
+	}
+	return "bad-op"
 }
+
+func impl(c core.Case) []string { return RunSession(c, query) }
 
 // ---- the property's own predicate (naive byte scanning; no trie, no model)
 
@@ -256,6 +276,10 @@ func checkOp(ps *PatSet, op string, arg []byte, out string) (string, string) {
 }
 
 func check(c core.Case, out []string) *core.Failure {
+	if f := Instability(c, out); f != nil {
+		return f
+	}
+	c = Resolved(c, out, false)
 	phases, ok := Phases(c)
 	if !ok {
 		return &core.Failure{Key: "bad-output", Desc: "bad header"}
@@ -286,6 +310,17 @@ func check(c core.Case, out []string) *core.Failure {
 					key = "bad-output"
 				}
 				return &core.Failure{Key: key, Desc: fmt.Sprintf("op %d %q (round %d, patterns so far %s) answered %q", i, c.Lines[i], ph.Round, showBs(ph.All), out[i])}
+			}
+			continue
+		}
+		if len(tk) == 3 && tk[0] == "sibling" {
+			pat, ok1 := Unhex(tk[1])
+			text, ok2 := Unhex(tk[2])
+			if !ok1 || !ok2 {
+				return &core.Failure{Key: "bad-output", Desc: "bad op line " + c.Lines[i]}
+			}
+			if key, desc := checkOp(NewPatSet([][]byte{pat}), "findall", text, out[i]); key != "" {
+				return &core.Failure{Key: key, Desc: fmt.Sprintf("op %d %q (an independent second trie built from a copy of the zero value): %s", i, c.Lines[i], desc)}
 			}
 			continue
 		}
@@ -320,6 +355,7 @@ func check(c core.Case, out []string) *core.Failure {
 // ---- non-triviality and distribution labels
 
 func nonTrivial(c core.Case, out []string) bool {
+	c = Resolved(c, out, false)
 	all, ok := HeaderPatterns(c.Lines[0])
 	if !ok {
 		return false
@@ -380,6 +416,8 @@ func backtracksMultibyte(res [][]byte, keyLen int) bool {
 }
 
 func classify(c core.Case, out []string) []string {
+	raw := c
+	c = Resolved(c, out, false)
 	all, ok := HeaderPatterns(c.Lines[0])
 	if !ok {
 		return nil
@@ -420,6 +458,9 @@ func classify(c core.Case, out []string) []string {
 	if !ok {
 		return ls
 	}
+	if strings.HasPrefix(c.Lines[0], "@ C05 raw") {
+		ls = append(ls, "header:raw-no-build")
+	}
 	if last := phases[len(phases)-1]; last.Round > 0 {
 		ls = append(ls, fmt.Sprintf("history:builds=%d", last.Round+1))
 		if last.NewInsideOld {
@@ -434,8 +475,18 @@ func classify(c core.Case, out []string) []string {
 			}
 			continue
 		}
+		if strings.Contains(raw.Lines[i], " ^") {
+			ls = append(ls, "feedback:result-as-next-argument")
+		}
+		if len(tk) == 3 && tk[0] == "sibling" {
+			ls = append(ls, "sibling:second-trie")
+			continue
+		}
 		if phases[i].Dirty {
 			ls = append(ls, "history:query-before-rebuild")
+			if out[i] == "panic" {
+				ls = append(ls, "history:query-before-rebuild-panicked-recovered")
+			}
 			continue
 		}
 		all, ps = phases[i].All, phases[i].PS
